@@ -265,7 +265,13 @@ theorem suffix_all (W : Word) (hW : W.Sound) (s : Suffix) :
     simp only [Suffix.text, List.all_cons, List.all_nil, hu, ha 'v' (by decide), ha 'a' (by decide),
       ha 'l' (by decide), ha 'u' (by decide), ha 'e' (by decide), Bool.and_true]
 
-theorem identOk_path (W : Word) (hW : W.Sound) (c top : Text) (s : Suffix)
+theorem sufPath_all (W : Word) (hW : W.Sound) (p : SufPath) :
+    p.text.all (isFieldChar W) = true := by
+  induction p with
+  | nil => rfl
+  | cons s rest ih => simp only [SufPath.text, List.all_append, suffix_all W hW s, ih, Bool.and_true]
+
+theorem identOk_path (W : Word) (hW : W.Sound) (c top : Text) (s : SufPath)
     (hc : identOk W c = true) (ht : identOk W top = true) :
     identOk W (withClass (some c) (top ++ s.text)) = true := by
   obtain ⟨hcn, hca⟩ := (identOk_iff W c).1 hc
@@ -273,7 +279,7 @@ theorem identOk_path (W : Word) (hW : W.Sound) (c top : Text) (s : Suffix)
   rw [identOk_iff]
   refine ⟨by cases c <;> simp_all [withClass], ?_⟩
   have hd : isFieldChar W '.' = true := by simp [isFieldChar]
-  simp only [withClass, List.all_append, List.all_cons, hca, hta, suffix_all W hW, hd, Bool.and_true]
+  simp only [withClass, List.all_append, List.all_cons, hca, hta, sufPath_all W hW, hd, Bool.and_true]
 
 /-! ### construction model -/
 
